@@ -141,7 +141,7 @@ def c15_filter(ctx, k, look, start, rec):
 def _cfg_fire(tier):
     out = []
     K = 12 if tier == 'quick' else 40
-    plan = [('A', 100.0, dict(), 'none'), ('A', 100.0, dict(sight_in=-1.0), 'none'), ('B', 60.0, dict(), 'left'),
+    plan = [('A', 100.0, dict(), 'none'), ('A', 100.0, dict(sight_in=-1.0), 'none'), ('B', 60.0, dict(), 'left'), ('B', 60.0, dict(), 'head30'),
             ('A', 100.0, dict(look_deg=20.0), 'none')]      # inclined sight line (needs the C02 zero-finder fix to zero at a coarse step)
     if tier == 'thorough':
         plan += [('A', 100.0, dict(sight_in=0.0), 'none'), ('A', 100.0, dict(look_deg=-20.0), 'two'), ('B', 60.0, dict(look_deg=10.0), 'none'),
@@ -156,7 +156,7 @@ def _cfg_fire(tier):
 
 @harness('C15.fire', 'C15', configs=_cfg_fire, functions=FUNCS, cost=12, engine_opts={'div_check': False, 'nl_axioms_in_feasibility': False},
          must_reach=['check:flagged_rows_match_crossings', 'check:zeros_accessor', 'zero_up_row', 'zero_down_row', 'mach_row'],
-         bounds='carriers A (sight above / below bore, level and +20 deg sight line), B (Mach crossing) with coarse steps, horizon K <= 12 / 40 steps; '
+         bounds='carriers A (sight above / below bore, level and +20 deg sight line), B (Mach crossing; cross wind and a 30 mph head wind) with coarse steps, horizon K <= 12 / 40 steps; '
                 'symbolic range R and record step S >= max step (cells of the (R, S) plane)',
          outside=['shots other than the carriers (the filter harness covers arbitrary point sequences)'])
 def c15_fire(ctx, carrier, step_ft, kw, wind, rlo, rhi):
